@@ -174,7 +174,7 @@ def run_c09(o, ctx, tier, seed, replay=None):
     run_histories(o, ctx, tier, seed, "c09", 300, 10000, flt=lambda m: bool(closing & set(m["kinds"])), stalls=4)
 
 
-register("C07", lean=["Khttp.Props.C07", "Khttp.Props.C07Skeleton", "Khttp.Props.C14Skeleton"], run=run_c07, known_check=known_c07,
+register("C07", lean=["Khttp.Props.C07", "Khttp.Props.C07Skeleton", "Khttp.Props.C07BodySkeleton", "Khttp.Props.C14Skeleton"], run=run_c07, known_check=known_c07,
          rule="CONN histories: 1-4 requests per connection over 15 handler behaviours (read all / k bytes / nothing, respond before reading, swallow errors, hook Drop, close tokens, errors, reader responses) "
               "x fixed/chunked bodies (extensions, trailers, Content-Length overridden by chunked) x head/body segmentations incl. 1-byte segments and 'rest of body together with the next request after the response'. "
               "distinct_nontrivial = distinct histories with >= 2 requests or a closing outcome.",
@@ -432,12 +432,12 @@ def run_c05(o, ctx, tier, seed, replay=None):
 CONN_RULE = ("CONN histories (see C07) restricted to those containing a close-relevant request: Connection: close in 9 spellings/placements (case, comma lists, OWS incl. HTAB, repeated fields) and 6 look-alikes that are NOT close, "
              "handler response with connection: close, handler errors (Other and Interrupted), pre-routing Drop with/without close; observed: is the next request answered or is the connection at EOF. "
              "distinct_nontrivial = distinct histories with >= 2 requests or a closing outcome.")
-register("C09", lean=["Khttp.Props.C09", "Khttp.Props.C07Skeleton"], run=run_c09, rule=CONN_RULE,
+register("C09", lean=["Khttp.Props.C09", "Khttp.Props.C09Handle", "Khttp.Props.C07Skeleton"], run=run_c09, rule=CONN_RULE,
          assumptions=["lock-step client", "user handlers and hooks are parameters of the model (Cfg); handlers use the body reader through its public API"],
          explanation="Theorems (Props/C09): exact characterisation of the keep-alive decision of handle_one_request (handler path, hook-Drop path, rejected heads 400/431 with close, peer EOF), the close flag of an accepted request = "
                      "'some Connection field has a comma-separated element equal to close ignoring case and surrounding whitespace' (via C04 + C19), handle_connection stops at the first closing call and reads nothing afterwards, "
                      "fuel adequacy. Tie: control skeleton of handle_one_request / handle_connection (decide) + CONN correspondence. Oracle: is the next request answered or is the connection at EOF, per history.")
-register("C05", lean=["Khttp.Props.C05"], run=run_c05,
+register("C05", lean=["Khttp.Props.C05", "Khttp.Props.C07BodySkeleton"], run=run_c05,
          rule="CONN cases: the full product {14 Content-Length variants (absent, valid, OWS-padded, zero-padded, signed, non-numeric, list-valued, duplicated equal/different, overflow, empty, hex)} x {14 Transfer-Encoding variants "
               "(absent, chunked, CHUNKED, OWS-padded, gzip+chunked, chunked+gzip, gzip, split over lines both ways, trailing comma, empty, xchunked, repeated)} x field order x {body in the same / a later segment}, each followed by a probe request "
               "whose answer reveals where the server looked for the next request (quick: a random 55% of the cells). distinct_nontrivial = distinct cells with at least two framing fields.",
